@@ -162,3 +162,6 @@ def check(prog, run):
                                        "variable of an iteration over the whole group `%s`: nesting under the other fields "
                                        "sharing the response key is not measured" % (callee.qualname, ast.unparse(a), grp),
                                        {"call": norm_stmt(x)})
+
+    from . import c04
+    c04.check_seen_scope(prog, run, "D5")
